@@ -244,3 +244,71 @@ def _register():
 
 
 _register()
+
+
+def driver_items(tier):
+    """Naunet::Renorm of the rendered cvode / odeint sources: the driver solves M r = ab_ref_ for a *separate* solution vector and
+    applies r; the stored reference ratios are read only (so that a second Renorm call uses the same reference).
+    A small ownership analysis of the rendered statements under ASSUMED contracts of the library calls:
+      N_VMake_Serial(n, p, ctx) wraps the storage p;  N_VNew_Serial allocates fresh storage;  N_VGetArrayPointer(v) is v's storage;
+      SUNLinSolSolve(LS, A, x, b, tol) writes x's storage only and reads b;  lu_substitute(A, pm, v) overwrites v in place;
+      InitRenorm(ab, A) writes A;  RenormAbundance(r, ab) writes ab and reads r."""
+    from .native_ode import render, networks
+    from pyvc import cmini
+    import re
+    items = []
+
+    def item(name, ok, detail=""):
+        return {"name": name, "status": "proved" if ok else "refuted", "backend": "ownership-scan", "seconds": 0.0, "detail": detail}
+    label, fac = next(x for x in networks("quick", 0) if x[0] == "H2-formation")
+    for backend in [("cvode", "dense", "cpu"), ("odeint", "rosenbrock4", "cpu")]:
+        pre = f"driver/{backend[0]}"
+        files = render(fac(), *backend, jac_pattern=False)
+        text = cmini.strip(files["src/naunet.cpp"])
+        m = re.search(r"int\s+Naunet::Renorm\s*\([^)]*\)\s*\{", text)
+        if not m:
+            items.append(item(f"{pre}/Renorm-found", False, "no Naunet::Renorm in the rendered driver"))
+            continue
+        depth, j = 1, m.end()
+        while j < len(text) and depth:
+            depth += {"{": 1, "}": -1}.get(text[j], 0)
+            j += 1
+        body = text[m.end():j - 1]
+        store, written, facts = {}, [], {}
+        for name, ptr in re.findall(r"N_Vector\s+(\w+)\s*=\s*N_VMake_Serial\(\s*\w+\s*,\s*(\w+)\s*,", body):
+            store[name] = ptr
+        for name in re.findall(r"N_Vector\s+(\w+)\s*=\s*N_VNew_Serial\(", body):
+            store[name] = "fresh:" + name
+        for name in re.findall(r"vector_type\s+(\w+)\s*\(", body):
+            store[name] = "fresh:" + name
+        for name, v in re.findall(r"\*\s*(\w+)\s*=\s*N_VGetArrayPointer\(\s*(\w+)\s*\)", body):
+            store[name] = store.get(v, "unknown:" + v)
+        for lhs in re.findall(r"\b(\w+)\s*\[[^\]]*\]\s*=(?!=)", body):
+            written.append(store.get(lhs, lhs))
+        if backend[0] == "cvode":
+            sol = re.search(r"SUNLinSolSolve\(\s*\w+\s*,\s*\w+\s*,\s*(\w+)\s*,\s*(\w+)\s*,", body)
+            if not sol:
+                items.append(item(f"{pre}/solve-call-found", False, "no SUNLinSolSolve(LS, A, x, b, tol)"))
+                continue
+            x, b = sol.groups()
+            written.append(store.get(x, "unknown:" + x))
+            items.append(item(f"{pre}/right-hand-side-is-the-stored-reference", store.get(b) == "ab_ref_", f"b = {b} -> {store.get(b)}"))
+            items.append(item(f"{pre}/solution-vector-has-its-own-storage", store.get(x, "").startswith("fresh:") and x != b, f"x = {x} -> {store.get(x)}, b = {b}"))
+            solvec = store.get(x)
+        else:
+            sol = re.search(r"lu_substitute\(\s*\w+\s*,\s*\w+\s*,\s*(\w+)\s*\)", body)
+            if not sol:
+                items.append(item(f"{pre}/solve-call-found", False, "no lu_substitute(A, pm, v)"))
+                continue
+            x = sol.group(1)
+            written.append(store.get(x, "unknown:" + x))
+            copy = re.search(rf"for\s*\(\s*int\s+(\w+)\s*=\s*0;\s*\1\s*<\s*NELEMENTS;\s*\1\+\+\s*\)\s*\{{\s*{x}\[\1\]\s*=\s*ab_ref_\[\1\];\s*\}}", body)
+            items.append(item(f"{pre}/right-hand-side-is-a-copy-of-the-stored-reference", copy is not None and store.get(x, "").startswith("fresh:"), f"{x} -> {store.get(x)}"))
+            solvec = store.get(x)
+        app = re.search(r"RenormAbundance\(\s*(\w+)\s*,\s*ab\s*\)", body)
+        items.append(item(f"{pre}/factors-computed-from-the-solution", app is not None and store.get(app.group(1), app.group(1)) == solvec,
+                          f"RenormAbundance({app.group(1) if app else '?'}, ab)"))
+        items.append(item(f"{pre}/frame-stored-reference-not-modified", "ab_ref_" not in written, f"storage written by Renorm: {sorted(set(written))}"))
+        ini = re.search(r"InitRenorm\(\s*ab\s*,\s*(\w+)\s*\)", body)
+        items.append(item(f"{pre}/matrix-built-from-the-current-abundances", ini is not None and (sol.start() > ini.start()), ""))
+    return items
